@@ -124,9 +124,20 @@ def main(argv=None):
             lines.append('KNOWN-FINDING: property=%s %s' % (pid, open_sigs[sig].get('description', sig)))
         if new_fail:
             f = new_fail[0]
-            path = common.write_replay(pid, dict(property=pid, kind='failing-input', what=f.get('what'),
-                                                 signature=f.get('signature'), case=f.get('case'),
-                                                 seed=a.seed, tier=a.tier))
+            payload = dict(property=pid, kind='failing-input', what=f.get('what'), signature=f.get('signature'), case=f.get('case'),
+                           seed=a.seed, tier=a.tier)
+            try:
+                import shrink
+                small, info = shrink.shrink_case(mod, ctx, f.get('case'), f.get('what'), budget_s=45.0)
+                if small is not None:
+                    payload['original_case'] = payload['case']
+                    payload['case'] = small
+                    payload['what'] = info.get('what') or payload['what']
+                if info:
+                    payload['shrink'] = {k: v for k, v in info.items() if k != 'what'}
+            except Exception:
+                log(traceback.format_exc())
+            path = common.write_replay(pid, payload)
             lines.append('VIOLATION property=%s replay=%s' % (pid, path))
             log('violation: %s' % f.get('what'))
             violations = len(new_fail)
